@@ -19,7 +19,7 @@ REPO = os.environ.get("CELMA_REPO", "/repo")
 BUILD = os.path.join(VERIF, "build")
 
 UBSAN = ("null,bounds,alignment,pointer-overflow,nonnull-attribute,"
-         "returns-nonnull-attribute,return,unreachable,vptr")
+         "returns-nonnull-attribute,return,unreachable,vptr,float-cast-overflow")
 COMMON = "-std=c++17 -g -O1 -fno-omit-frame-pointer -I%s/src -I%s" % (REPO, VERIF)
 FLAVOURS = {
     # sanitizer flags, coverage flags (only for code under test + harness)
